@@ -1,67 +1,15 @@
-import GrafeoModel.Model.Sess
+import GrafeoModel.Model.SessSpec
 import GrafeoModel.Driver.Lpg
 
 /-! Stream `sess`: sessions over one in-memory database (C01, C02). Stateful; reset at `# case`.
-The specification is the textbook snapshot-isolation oracle. -/
+The specification is the textbook snapshot-isolation oracle; its state and step definitions (`SGraph`, `W`,
+`STx`, `St`, `St.view`, `SGraph.apply`, `St.recordWrite`, `St.touch`) live in `Model/SessSpec.lean`, where
+`Props/C01SI.lean` proves the creation-only refinement theorem about them. -/
 namespace Grafeo.DriverSess
-open Grafeo.Lpg Grafeo.Sess Grafeo.TxMgr Grafeo.Proto Grafeo.DriverLpg
+open Grafeo.Lpg Grafeo.Sess Grafeo.TxMgr Grafeo.Proto Grafeo.DriverLpg Grafeo.SessSpec
 
-structure SGraph where
-  nodes : AList (List Nat × AList String) := []
-  edges : AList EdgeRec := []
-
-inductive W where
-  | node (id : Nat) (labels : List Nat)
-  | edge (id : Nat) (r : EdgeRec)
-  | setProp (id key : Nat) (v : String)
-  | addLabel (id l : Nat)
-  | remLabel (id l : Nat)
-  | delNode (id : Nat)                 -- DETACH DELETE: the node and every incident edge
-  | delEdge (id : Nat)
-
-def SGraph.apply (g : SGraph) : W → SGraph
-  | .node id ls => { g with nodes := aset g.nodes id (ls.foldl sinsert [], []) }
-  | .edge id r => { g with edges := aset g.edges id r }
-  | .setProp id key v => match aget g.nodes id with
-    | some (ls, ps) => { g with nodes := aset g.nodes id (ls, aset ps key v) }
-    | none => g
-  | .addLabel id l => match aget g.nodes id with
-    | some (ls, ps) => { g with nodes := aset g.nodes id (sinsert ls l, ps) }
-    | none => g
-  | .remLabel id l => match aget g.nodes id with
-    | some (ls, ps) => { g with nodes := aset g.nodes id (serase ls l, ps) }
-    | none => g
-  | .delNode id => { nodes := aerase g.nodes id,
-                     edges := g.edges.filter (fun kv => kv.2.src != id && kv.2.dst != id) }
-  | .delEdge id => { g with edges := aerase g.edges id }
-
-/-- the entities a write modifies (not the ones it creates): node `2·id`, edge `2·id+1` -/
-def W.modifies (g : SGraph) : W → List Nat
-  | .node _ _ | .edge _ _ => []
-  | .setProp id _ _ | .addLabel id _ | .remLabel id _ => [2 * id]
-  | .delNode id => 2 * id :: (g.edges.filter (fun kv => kv.2.src == id || kv.2.dst == id)).map (fun kv => 2 * kv.1 + 1)
-  | .delEdge id => [2 * id + 1]
-
-structure STx where
-  snap : SGraph
-  writes : List W := []
-  beginSeq : Nat := 0
-  modified : List Nat := []            -- entities modified in place (for first-committer-wins)
-  touchedKeys : List Nat := []         -- … including those only the implementation's model matched (ghost)
-
-structure St where
-  w : World := {}
-  committed : SGraph := {}
-  txs : AList (Option STx) := []        -- session ↦ open transaction of the oracle
-  seq : Nat := 0                        -- number of commits so far (auto-commits included)
-  commits : List (Nat × List Nat) := [] -- (sequence number, entities modified) of every commit
-  touched : List Nat := []              -- entities some query mutated in place (ghost, for signatures)
-  abortedTouched : List Nat := []       -- … by a transaction that was rolled back afterwards
-
-def St.view (z : St) (k : Nat) : SGraph :=
-  match (aget z.txs k).getD none with
-  | some t => t.writes.foldl SGraph.apply t.snap
-  | none => z.committed
+/-- the stream state (`Driver.lean` refers to it under this name) -/
+abbrev St := SessSpec.St
 
 /-- who created node `id` according to the model's version chain, and what became of them -/
 def classifyExtra (z : St) (k id : Nat) : String :=
@@ -96,23 +44,6 @@ def sigIds (z : St) (k : Nat) (m s : List Nat) : String :=
     | [] => if missing.isEmpty then "-" else "committed-entity-not-enumerated"
 
 def mk' (m s sig : String) : Proto.Out := { model := m, spec := s, sig := if m == s then "-" else sig }
-
-/-- the oracle performs write `w` for session `k` (in its transaction, or as an auto-commit) -/
-def St.recordWrite (z : St) (k : Nat) (w : W) : St :=
-  let mods := w.modifies (z.view k)
-  match (aget z.txs k).getD none with
-  | some t => { z with txs := aset z.txs k (some { t with writes := t.writes ++ [w], modified := t.modified ++ mods,
-                                                          touchedKeys := t.touchedKeys ++ mods }),
-                       touched := z.touched ++ mods }
-  | none => { z with committed := z.committed.apply w, seq := z.seq + 1, commits := (z.seq + 1, mods) :: z.commits,
-                     touched := z.touched ++ mods }
-
-/-- ghost bookkeeping when the model of the implementation matched (and mutated in place) -/
-def St.touch (z : St) (k key : Nat) : St :=
-  let z1 := { z with touched := z.touched ++ [key] }
-  match (aget z.txs k).getD none with
-  | some t => { z1 with txs := aset z1.txs k (some { t with touchedKeys := t.touchedKeys ++ [key] }) }
-  | none => z1
 
 /-- a mutation `MATCH … WHERE id(x) = target <clause>`: `mm` = the implementation's model matched,
 `sm` = the oracle's view of session `k` holds the target. -/
@@ -248,7 +179,11 @@ def handle (z : St) (args : List String) : Option (St × Proto.Out) :=
     let k ← k.toNat?
     let id ← id.toNat?
     let (w', mm) := z.w.qDetachDelete k id
-    pure (inPlaceOp z k (2 * id) w' mm (aget (z.view k).nodes id).isSome (.delNode id) "ok")
+    -- `delete_node_edges` removes every incident edge of the adjacency lists, whether or not the
+    -- deleting session can see it: all of them are touched in place
+    let incident := ((z.w.store.outEdges id) ++ (z.w.store.inEdges id)).map (fun p => 2 * p.2 + 1)
+    let (z', out) := inPlaceOp z k (2 * id) w' mm (aget (z.view k).nodes id).isSome (.delNode id) "ok"
+    pure (if mm then incident.foldl (fun acc key => acc.touch k key) z' else z', out)
   -- `MATCH (a)-[e]->(b) WHERE id(e) = x DELETE e`
   | ["qdele", k, e] => do
     let k ← k.toNat?
@@ -264,6 +199,25 @@ def handle (z : St) (args : List String) : Option (St × Proto.Out) :=
       | none => 2 * e + 1
     let (z', out) := inPlaceOp z k (2 * e + 1) w' mm sm (.delEdge e) "ok"
     pure (z', if out.sig == "committed-entity-not-enumerated" && z.touched.contains key then { out with sig := inPlaceSig z key } else out)
+  -- `MERGE (n:Ll) RETURN id(n)`: `matched`, or the id of the node it created
+  | ["qmerge", k, l] => do
+    let k ← k.toNat?
+    let l ← l.toNat?
+    let (w', r) := z.w.qMerge k l
+    let specMatched := (z.view k).nodes.any (fun kv => kv.2.1.contains l)
+    let z1 := { z with w := w' }
+    match r with
+    | some id =>
+      -- the oracle's ids follow the implementation's allocation
+      let z2 := match (aget z1.txs k).getD none with
+        | some t => { z1 with txs := aset z1.txs k (some { t with writes := t.writes ++ [.node id [l]] }) }
+        | none => { z1 with committed := z1.committed.apply (.node id [l]) }
+      let m := s!"created:{id}"
+      pure (z2, mk' m (if specMatched then "matched" else m)
+        (if z.touched.isEmpty then "committed-entity-not-enumerated" else inPlaceSig z (z.touched.headD 0)))
+    | none =>
+      pure (z1, mk' "matched" (if specMatched then "matched" else "created")
+        (if z.touched.isEmpty then "extra-entity" else inPlaceSig z (z.touched.headD 0)))
   | ["dbcn", ls] => do
     let ls ← parseNatList ls
     let (w', id) := z.w.dbCreateNode ls
